@@ -394,4 +394,49 @@ def r6_names_values_same_order(ctx):
     ctx.check(ok, d.qual + "#task-names", "the tasks receive that same mapping as dimension_names" if ok else "tasks do not receive the ordered name mapping", where=d, node=au[0] if au else d.node)
 
 
-RULES = [r6_names_values_same_order, r1_sibling_run_space, r2_no_shared_state_in_task, r3_one_suffix_per_run, r4_task_independence, r5_island_order]
+def r7_every_task_runs_its_own_pipeline(ctx):
+    """Per path (sa/paths.py): the dask task _run_pipelines_tuple_to_array returns only arrays obtained from ITS OWN call of _run_pipelines_array_to_datatree - no path hands back a result computed elsewhere (e.g. the metadata run, which wrote its files into a temporary folder), so every parameter combination writes its files and is computed under the same conditions as in the sequential path."""
+    from sa.paths import enumerate_paths
+
+    t = ctx.func(f"{OD}:_run_pipelines_tuple_to_array")
+    n = 0
+    for q in enumerate_paths(t.node.body):
+        if q.exit != "return":
+            continue
+        n += 1
+        own = q.called("_run_pipelines_array_to_datatree")
+        ok = len(own) == 1
+        if ok:
+            c = own[0][1]
+            ok = dotted(kw(c, "params_tuple")) == t.params[0] and dotted(kw(c, "output_filename_suffix")) == t.params[1]
+        ctx.check(ok, t.qual + f"#own-run:{n}", "the returned arrays come from this task's own pipeline run (its parameters, its suffix)" if ok else f"on the path {q.cond_texts()} the task returns {norm(q.value)[:60] if q.value is not None else None} without running the pipeline for its own parameters / suffix: that combination writes no file and is not computed like its sequential counterpart", where=t, node=q.exit_node or t.node)
+    ctx.floor(n, 1)
+
+
+def r8_evolved_algorithm_comes_back(ctx):
+    """DaskIsland.run_evolve returns the algorithm AND the population obtained from the worker's result (the algorithm carries its random stream and self-adapted state from one evolution to the next); handing back the input algorithm makes the outcome depend on whether the worker shares memory with the caller (threads) or not (processes)."""
+    from sa.astutil import flow_exprs
+
+    ev = ctx.func("pyxel.calibration.user_defined:AlgoSerializable.evolve")
+    rets = [r for r in returns_of(ev) if r.value is not None]
+    ok = len(rets) == 1
+    if ok:
+        v = expand(ev, rets[0].value)
+        ok = isinstance(v, ast.Tuple) and len(v.elts) == 2 and dotted(v.elts[0]) == "self._algo" and isinstance(v.elts[1], ast.Call) and norm(v.elts[1].func) == "self._algo.evolve"
+    ctx.check(ok, ev.qual, "the worker returns (algorithm, evolved population)" if ok else "the worker does not send the evolved algorithm back with the population", where=ev, node=rets[0] if rets else ev.node)
+    re_ = ctx.func("pyxel.calibration.user_defined:DaskIsland.run_evolve")
+    rets = [r for r in returns_of(re_) if r.value is not None]
+    ok = len(rets) == 1 and isinstance(rets[0].value, ast.Tuple) and len(rets[0].value.elts) == 2
+    why = "run_evolve does not return (algorithm, population)"
+    if ok:
+        for i, what in ((0, "algorithm"), (1, "population")):
+            names, exprs = flow_exprs(re_, rets[0].value.elts[i])
+            from_worker = any(isinstance(e, ast.Call) and isinstance(e.func, ast.Attribute) and e.func.attr == "compute" for x in exprs for e in ast.walk(x))
+            direct_param = dotted(rets[0].value.elts[i]) in re_.params
+            if not from_worker or direct_param:
+                ok = False
+                why = f"the returned {what} is {norm(rets[0].value.elts[i])}: not what the worker computed (state evolved in another process is lost)"
+    ctx.check(ok, re_.qual, "algorithm and population both come from the worker's result" if ok else why, where=re_, node=rets[0] if rets else re_.node)
+
+
+RULES = [r7_every_task_runs_its_own_pipeline, r8_evolved_algorithm_comes_back, r6_names_values_same_order, r1_sibling_run_space, r2_no_shared_state_in_task, r3_one_suffix_per_run, r4_task_independence, r5_island_order]
